@@ -930,13 +930,22 @@ void mmd_export_token_latex(DString * out, const char * source, token * t, scrat
 		case BLOCK_TOC:
 			pad(out, 2, scratch);
 
-			// Define range
-			if (t->child->child->type == TOC) {
-			} else {
-				temp_short = source[t->start + 6] - '0';
+			// Find the TOC marker -- inside a list item the line follows the list marker
+			temp_token = t->child;
 
-				if (t->child->child->type == TOC_RANGE) {
-					temp_short2 = source[t->start + 8] - '0';
+			while (temp_token && (temp_token->type != LINE_TOC)) {
+				temp_token = temp_token->next;
+			}
+
+			temp_token = temp_token ? temp_token->child : NULL;
+
+			// Define range
+			if ((temp_token == NULL) || (temp_token->type == TOC)) {
+			} else {
+				temp_short = source[temp_token->start + 6] - '0';
+
+				if (temp_token->type == TOC_RANGE) {
+					temp_short2 = source[temp_token->start + 8] - '0';
 				} else {
 					temp_short2 = temp_short;
 				}
